@@ -11,6 +11,7 @@ from engine.ir2c import kernel as K
 from engine.ir2c.kernel import Ctx, Infra, log, REPO, HK
 
 ID = "C33"
+DISABLED = True   # not claimed in MANIFEST.json: the check below is an exhaustive enumeration, not solver-decided (see not_applicable)
 ENGINE = "kernel"
 TECHNIQUE = ("real Parallel2DExecutor.cpp with ParallelExecutor = sequential stub recording passes; EXHAUSTIVE ENUMERATION (no solver: the "
              "partition logic has no data inputs) of (gridSize, processors, rangeType) on the g++ build of the real code and, "
